@@ -355,6 +355,24 @@ func RerunPerturbed(h *History, scratch, label string, p Perturb) (*History, *Pe
 			break
 		}
 		noise(b.Height)
+		if p.Noise {
+			// between the EndBlock that applied a governance proposal and its Commit (the new parameters are
+			// decided but not yet in force) the mempool always checks something
+			for _, e := range o.EndEvts {
+				if strings.Contains(e, "applied") {
+					fresh(b.Height)
+					if len(pool) > 0 {
+						if code, pn := n.Check(pool[rng.Intn(len(pool))].Bytes); pn != "" {
+							st.CheckPanics = append(st.CheckPanics, pn)
+						} else if code == 0 {
+							st.ChecksPassed++
+						}
+						st.Checks++
+					}
+					break
+				}
+			}
+		}
 		o.AppHash, o.CommitPanic = n.Commit()
 		if o.CommitPanic != "" {
 			out.Obs = append(out.Obs, o)
